@@ -32,6 +32,11 @@ Property clauses (only these can raise a violation):
   on traces where solving returned normally, for every k >= 1:
   C02_Finite, C02_Residual (|x - f(x)| <= 4 n (1+L) tol max(1, |x|_inf) for every simultaneous
   equation), C02_DecorativeExact, C02_LaggedExact, C02_ExogenousExact (1e-12 relative)
+An equation that is undefined at the reported values (ZeroDivisionError / ValueError when evaluated
+there) does not hold: C02_Residual / C02_DecorativeExact, signature equation-undefined-at-reported-values.
+Behaviours with a persistent evaluation error are realised 6 times: failing equation declared last / first
+(= last / not last simultaneous equation) x ZeroDivisionError, ValueError (log10 of 0), user function raising
+ValueError; overflowing behaviours with the overflowing variable declared last / first.
 Readings: which equations are "derived-only" is the solver's own classification (Parser.Decoration
 after reduction); all others only need the residual bound.  Numeric predicates are computed by the
 projection in Fraction arithmetic on the reported floats; the right-hand sides are those submitted.
@@ -59,8 +64,10 @@ def run(rep):
                        'TLC 1.8 / tla2tools']
     sk.expect_counterexample(rep, core, 'MC_Solver_asfound.cfg', 'C02_SolvedOnlyIfConverged')
     behs = sk.tlc_behaviours(rep, core, rep.tier)
-    items = [{'case': sk.scenario(b), 'behaviour': b} for b in behs if sk.scenario_realisable(b)]
-    rep.extra['behaviours_replayed'] = len(items)
+    items = [{'case': sk.scenario(b, v), 'behaviour': b} for b in behs if sk.scenario_realisable(b)
+             for v in sk.scenario_variants(b)]
+    rep.extra['behaviours_replayed'] = sum(1 for b in behs if sk.scenario_realisable(b))
+    rep.extra['behaviour_realisations'] = len(items)
     items += [{'case': c} for c in sk.classics()]
     n_random = 400 if rep.tier == 'quick' else 5000
     items += [{'case': c} for c in sk.random_cases(rep.seed, n_random, contractive_share=0.4)]
